@@ -662,8 +662,13 @@ static size_t copy_chars (UCHAR* from, UCHAR* to, size_t count, interactive_t* i
               /*
                * Ok...  need to call a function on the interactive object,
                * passing the buffer as a paramater.
+               * The sub-negotiation is over whatever the function does: leave
+               * the SB state first, an uncaught error in the function does not
+               * come back here (all later input would be discarded as
+               * "inside IAC SB").
                */
               ip->sb_buf[ip->sb_pos] = 0;	/* may need setup as a buffer */
+              ip->state = TS_DATA;
               switch (ip->sb_buf[0])
                 {
                 case TELOPT_TTYPE:
@@ -780,7 +785,6 @@ static size_t copy_chars (UCHAR* from, UCHAR* to, size_t count, interactive_t* i
                     break;
                   }
                 }
-              ip->state = TS_DATA;
               break;
             }
           /* unrecognized IAC ??? between IAC SB and IAC SE, discard */
